@@ -277,6 +277,8 @@ class BGP(protocol.Protocol):
         """Called when a BGP Update message was received."""
         # TODO: Need to convert `self.add_path_ipv4_receive` and `self.add_path_ipv4_send` into a unified
         #  `afi_add_path` format.
+        # message statistic: the UPDATE has been received whatever it decodes to
+        self.msg_recv_stat['Updates'] += 1
         result = Update().parse(timestamp, msg, self.fourbytesas, afi_add_path={})
         if result['sub_error']:
             msg = {
@@ -289,7 +291,6 @@ class BGP(protocol.Protocol):
             self.handler.on_update_error(self, timestamp, msg)
 
             LOG.error('[%s] Update message error: sub error=%s', self.factory.peer_addr, result['sub_error'])
-            self.msg_recv_stat['Updates'] += 1
             self.fsm.update_received()
             return
 
@@ -318,7 +319,6 @@ class BGP(protocol.Protocol):
                 # LOG.info(msg)
         self.handler.update_received(self, timestamp, msg)
 
-        self.msg_recv_stat['Updates'] += 1
         self.fsm.update_received()
 
     def send_update(self, msg):
